@@ -1050,6 +1050,69 @@ M("C08.rev_fix_worker_awaits_first_receiver", ["C08", "C12"], "emitter/otlp/src/
 M("C08.worker_awaits_next_once", ["C08", "C12"], "emitter/otlp/src/client.rs",
   "            let _ = processors.collect::<Vec<()>>().await;", "            let mut processors = processors;\n            let _ = processors.next().await;", "R4:workers-run-to-completion")
 
+
+# ---- round 11: survivors of the operator-mutation sweep (selftest/sweep.py) that became rules (rules/shapes.py and results-inspected regions) ----
+M('sweep11.file.member_else_true', ['C11'], 'emitter/file/src/lib.rs',
+  '    else {\n        return false;\n    };\n\n',
+  '    else {\n        return true;\n    };\n\n', 'C11.R10:non-members-rejected')
+M('sweep11.tokio.flavour_ne_flush', ['C08'], 'batcher/src/tokio.rs',
+  'Ok(handle) if handle.runtime_flavor() == tokio::runtime::RuntimeFlavor::MultiThread => {\n            tokio::task::block_in_place(|| sync::blocking_flush',
+  'Ok(handle) if handle.runtime_flavor() != tokio::runtime::RuntimeFlavor::MultiThread => {\n            tokio::task::block_in_place(|| sync::blocking_flush', 'C08.R5:block-in-place-polarity')
+M('sweep11.sync.trigger_true', ['C07', 'C08'], 'batcher/src/sync.rs',
+  'Mutex::new(false), Condvar::new()',
+  'Mutex::new(true), Condvar::new()', 'trigger-starts-unset')
+M('sweep11.sync.remaining_add', ['C08'], 'batcher/src/sync.rs',
+  'timeout.checked_sub(now.elapsed())',
+  'timeout.checked_add(now.elapsed())', 'remaining-time-shrinks')
+M('sweep11.otlp.flush_remaining_add', ['C08'], 'emitter/otlp/src/client.rs',
+  'timeout.saturating_sub(start.elapsed())',
+  'timeout.saturating_add(start.elapsed())', 'remaining-time-shrinks', count=3)
+M('sweep11.lib.retry_len_le', ['C06', 'C08'], 'batcher/src/lib.rs',
+  'if retryable.len() > 0 && self.retry.next() {',
+  'if retryable.len() <= 0 && self.retry.next() {', 'retry-when-nonempty')
+M('sweep11.lib.retry_len_ge', ['C06'], 'batcher/src/lib.rs',
+  'if retryable.len() > 0 && self.retry.next() {',
+  'if retryable.len() >= 0 && self.retry.next() {', 'retry-when-nonempty')
+M('sweep11.lib.is_empty_ne', ['C06'], 'batcher/src/lib.rs',
+  '        self.len() == 0\n',
+  '        self.len() != 0\n', 'C06.R1:Channel::is_empty')
+M('sweep11.tp.check_neg', ['C18'], 'traceparent/src/lib.rs',
+  '        if !self.check {\n            return self.inner.for_each(for_each);',
+  '        if self.check {\n            return self.inner.for_each(for_each);', 'exclude-props-polarity')
+M('sweep11.tp.check_false_true', ['C18'], 'traceparent/src/lib.rs',
+  '                check: false,\n',
+  '                check: true,\n', 'exclude-props-polarity', count=2)
+M('sweep11.tp.check_true_false', ['C18'], 'traceparent/src/lib.rs',
+  '            check: true,\n',
+  '            check: false,\n', 'exclude-props-polarity')
+M('sweep11.tp.is_valid_or', ['C18'], 'traceparent/src/lib.rs',
+  'self.trace_id.is_some() && self.span_id.is_some()',
+  'self.trace_id.is_some() || self.span_id.is_some()', 'C18.R1:is_valid')
+M('sweep11.tp.is_parent_or', ['C18'], 'traceparent/src/lib.rs',
+  'self.traceparent.trace_id.is_some() && self.traceparent.trace_id == trace_id',
+  'self.traceparent.trace_id.is_some() || self.traceparent.trace_id == trace_id', 'C18.R6:is_parent_of')
+M('sweep11.tp.is_parent_none', ['C18'], 'traceparent/src/lib.rs',
+  'self.traceparent.trace_id.is_some() && self.traceparent.trace_id == trace_id',
+  'self.traceparent.trace_id.is_none() && self.traceparent.trace_id == trace_id', 'C18.R6:is_parent_of')
+M('sweep11.tp.sep_and', ['C15'], 'traceparent/src/lib.rs',
+  "bytes[2] != b'-' || bytes[35] != b'-' || bytes[52] != b'-'",
+  "bytes[2] != b'-' && bytes[35] != b'-' || bytes[52] != b'-'", 'separators-each-checked')
+M('sweep11.tp.sep_and2', ['C15'], 'traceparent/src/lib.rs',
+  "bytes[2] != b'-' || bytes[35] != b'-' || bytes[52] != b'-'",
+  "bytes[2] != b'-' || bytes[35] != b'-' && bytes[52] != b'-'", 'separators-each-checked')
+M('sweep11.anyvalue.bool_ok', ['C13'], 'emitter/otlp/src/data/any_value.rs',
+  '        self.stream.bool(value)?;',
+  '        self.stream.bool(value).ok();', 'C13.R5:results-inspected')
+M('sweep11.logrecord.exception_ok', ['C13'], 'emitter/otlp/src/data/logs/log_record.rs',
+  'stream.stream_attribute(emit::Str::new("exception.message"), v)?;',
+  'stream.stream_attribute(emit::Str::new("exception.message"), v).ok();', 'C13.R5:results-inspected')
+M('sweep11.tp.display_ok', ['C15'], 'traceparent/src/lib.rs',
+  '            fmt::Display::fmt(&trace_id, f)?;',
+  '            fmt::Display::fmt(&trace_id, f).ok();', 'writers-propagate')
+M('sweep11.props.asmap_ok', ['C02'], 'core/src/props.rs',
+  '            stream.map_key_begin()?;',
+  '            stream.map_key_begin().ok();', 'views-propagate')
+
 # ---- round 6 (own probing of the blocking entry points): Trigger, send_or_wait, callbacks ------------------------------------------
 M("C07.wait_zero_timeout_reports_flushed", ["C07"], "batcher/src/sync.rs",
   "            if timeout == Duration::ZERO {\n                return false;", "            if timeout == Duration::ZERO {\n                return true;", "C07.R4:Trigger")
